@@ -165,6 +165,18 @@ Definition step (s : state) (l : label) : option state :=
                     (fun j => if Nat.eqb j m then (match got with Some v => Some v | None => mids s j end) else mids s j))
   end.
 
+(* ---------- the start-up identity check (etcdutil.CheckClusterID, run by startEtcd on every member) ----------
+   The peers listed in initial-cluster are asked one after the other for the id of the etcd cluster they belong to:
+   None = the peer did not answer (skipped: it may not be up yet), Some id = its answer. The first answer that differs
+   from the member's own id refuses the start-up; nothing else ends the walk (skeleton obligations
+   skel_CheckClusterID_ok / check_cluster_id_flow_ok). *)
+Fixpoint startup_check (local : Z) (answers : list (option Z)) : bool :=
+  match answers with
+  | [] => true
+  | None :: r => startup_check local r
+  | Some id :: r => if id =? local then startup_check local r else false
+  end.
+
 (* ---------- operation-level wrapper used by the correspondence check ---------- *)
 Inductive op :=
 | OBoot (t : nat) (h : option Z) (p : payload)   (* complete Bootstrap call; h = the request header: None = no header
